@@ -26,6 +26,7 @@ import (
 	"testing"
 
 	"github.com/fiorix/go-diameter/v4/diam"
+	"github.com/fiorix/go-diameter/v4/diam/datatype"
 	"pgregory.net/rapid"
 
 	"verif/internal/ev"
@@ -38,11 +39,17 @@ type Case struct {
 	Cmd   uint32         `json:"cmd"`
 	App   uint32         `json:"app"`
 	Decl  string         `json:"decl,omitempty"` // a declared struct type instead of reflect.StructOf
+	// Prefill: the state of the message before the Marshal under test.
+	// "" = fresh from NewMessage; "avps" = it already carries AVPs added with
+	// AddAVP (what Answer(resultCode) leaves); "remarshal" = the same struct
+	// was marshalled into it once before; "other" = another value of the type
+	// (all fields zero / nil) was marshalled into it before.
+	Prefill string `json:"prefill,omitempty"`
 	Type  []FieldT       `json:"type"`
 	Val   []FieldV       `json:"val"`
 }
 
-const rule = "struct types generated with reflect.StructOf from a spec: 1..6 fields per level, each a dictionary name of the message's application (dict.Default, the per-file embedded dictionaries, generated dictionaries with all 18 type names) x shape {datatype type | lossless native Go type} x {T, *T, []T, []*T}, diam.AVP / *diam.AVP / []*diam.AVP, struct / *struct / []struct / []*struct for grouped AVPs to depth 3, embedded untagged struct, embedded tagged struct x tag form {avp:\"N\", avp:\"N,omitempty\", each alone / after / before a json key}; no code twice per struct level; values incl. zero numbers, empty strings, nil pointers, nil and empty slices; non-trivial = at least 2 fields in total and at least one pointer / slice / nested / embedded shape; distinct by hash of the JSON form of the case"
+const rule = "struct types generated with reflect.StructOf from a spec: 1..6 fields per level, each a dictionary name of the message's application (dict.Default, the per-file embedded dictionaries, generated dictionaries with all 18 type names) x shape {datatype type | another datatype type that converts losslessly (string kinds among themselves, wider integer / float) | lossless native Go type} x {T, *T, []T, []*T}, diam.AVP / *diam.AVP / []*diam.AVP, struct / *struct / []struct / []*struct for grouped AVPs to depth 3, embedded untagged struct, embedded tagged struct x tag form {avp:\"N\", avp:\"N,omitempty\", each alone / after / before a json key}; no code twice per struct level; the message marshalled into is fresh from NewMessage or (3 in 8) already used: carries AVPs added with AddAVP, or the same / a zero value of the struct was marshalled into it before; values incl. zero numbers, empty strings, nil pointers, nil and empty slices; non-trivial = at least 2 fields in total and at least one pointer / slice / nested / embedded shape; distinct by hash of the JSON form of the case"
 
 var prop = ev.Register(&ev.Prop[Case]{
 	ID: "C18", Name: "struct", Rule: rule,
@@ -60,6 +67,12 @@ type verdict struct {
 	// than expected, i.e. something was omitted or emitted wrongly.
 	presence bool
 }
+
+const (
+	preAVPs      = "avps"
+	preRemarshal = "remarshal"
+	preOther     = "other"
+)
 
 const (
 	stHarness       = "harness"
@@ -132,12 +145,41 @@ func core(c Case) *verdict {
 	show := func() string { return fmt.Sprintf("struct type %s, application %d", clipS400(typ.String()), c.App) }
 
 	m := diam.NewMessage(c.Cmd, c.Flags, c.App, 1, 2, p)
+	switch c.Prefill {
+	case "":
+	case preAVPs:
+		m.AddAVP(diam.NewAVP(268, 0x40, 0, datatype.Unsigned32(2001)))
+		m.AddAVP(diam.NewAVP(264, 0x40, 0, datatype.DiameterIdentity("prefill.example.org")))
+	case preRemarshal:
+		protect(func() error { return m.Marshal(orig.Interface()) })
+	case preOther:
+		protect(func() error { return m.Marshal(reflect.New(typ).Interface()) })
+	default:
+		return &verdict{stage: stHarness, detail: "unknown prefill " + c.Prefill}
+	}
 	err, pan = protect(func() error { return m.Marshal(orig.Interface()) })
 	if pan != "" {
 		return &verdict{stage: stMarshalPanic, detail: "Marshal panicked: " + pan + "\n" + show()}
 	}
 	if err != nil {
 		return &verdict{stage: stMarshalError, detail: fmt.Sprintf("Marshal failed: %v; %s", err, show())}
+	}
+	// A message that was not empty: the property does not say whether Marshal
+	// replaces or extends what is there; when it extends, only the header
+	// length and the parse of the wire form are checked.
+	if c.Prefill != "" && countGot(m.AVP) > countWant(want) {
+		wire, err := m.Serialize()
+		if err != nil {
+			return &verdict{stage: stSerialize, detail: fmt.Sprintf("Serialize after Marshal into a used message failed: %v; %s", err, show())}
+		}
+		if int(m.Header.MessageLength) != len(wire) {
+			return &verdict{stage: stLength, detail: fmt.Sprintf("Header.MessageLength is %d after Marshal into a used message (%s) but the message serialises to %d bytes; %s",
+				m.Header.MessageLength, c.Prefill, len(wire), show())}
+		}
+		if _, err := diam.ReadMessage(bytes.NewReader(wire), p); err != nil {
+			return &verdict{stage: stWireRead, detail: fmt.Sprintf("the message marshalled into (%s) does not survive Serialize + ReadMessage: %v; %s", c.Prefill, err, show())}
+		}
+		return nil
 	}
 	// (i) the AVPs a caller would build by hand
 	if d := compareAVPs(want, m.AVP, ""); d != "" {
@@ -325,6 +367,8 @@ func describe(ft FieldT) string {
 	case KScalar:
 		if ft.Go == "dt" {
 			e = "datatype." + ft.DT
+		} else if f, ok := foreign(ft.Go); ok {
+			e = "datatype." + f
 		}
 	}
 	w := map[string]string{WNone: "", WPtr: "*", WSlice: "[]", WSlicePtr: "[]*"}[ft.Wrap]
@@ -450,6 +494,9 @@ func (s *shapeStats) walk(o *oracle, fs []FieldT, vs []FieldV, depth int, inGrou
 		case KScalar:
 			if ft.Go == "dt" {
 				s.classes["shape:datatype-"+w] = true
+			} else if f, ok := foreign(ft.Go); ok {
+				s.classes["shape:foreign-datatype-"+w] = true
+				s.classes["foreign:"+f+"-for-"+ft.DT] = true
 			} else {
 				s.classes["shape:native-"+w] = true
 				s.classes["native:"+ft.Go] = true
@@ -531,6 +578,9 @@ func classify(c Case) (bool, []string) {
 	cl := []string{"dict:" + c.Dict.Name}
 	if c.Decl != "" {
 		cl = append(cl, "declared:"+c.Decl)
+	}
+	if c.Prefill != "" {
+		cl = append(cl, "message-before:"+c.Prefill)
 	}
 	for k := range s.classes {
 		cl = append(cl, k)
